@@ -13,48 +13,56 @@ EXTRACT_TARGETS = ['Extract/Ex_exttraparea.vo']
 RUNNER = 'exttraparea'
 LEVEL = 'proof'
 MANIFEST = {
-    'text': "Theorems (Coq, over Q/Z, for ALL (grad_start, grad_end, area) and all systems, on a Gallina model that follows "
-            "make_extended_trapezoid_area.py statement by statement incl. the checks of make_extended_trapezoid it runs into): "
-            "whenever the model returns a gradient its first/last amplitudes are grad_start/grad_end and the times start at 0, all "
-            "corner times are integer multiples of the raster and strictly increasing, the enclosed area EQUALS the requested area "
-            "(the analytic plateau amplitude solves the area equation), every amplitude/slope is within the system limits with the "
-            "code's slack and the plateau within 99% (+1e-8); `find_solution d = None` implies that NO two-ramp gradient of "
-            "duration d with raster corner times satisfies the area equation within the limits the code enforces; the returned "
-            "duration is the smallest one with a two-ramp solution when it comes from the linear-search phase (unconditional), "
-            "its predecessor never has a solution (unconditional), and it is the smallest overall in the binary-search phase "
-            "under the monotonicity hypothesis the code's own comment assumes. Safety factors (0.99), tolerances (1e-8), eps and "
-            "the shape of every transcribed expression are re-read from the source on every run. On the implementation every "
-            "generated case (random systems, rasters 4/5/10/20 us, both signs, limit / equal / opposite / zero ends, areas from 0 "
-            "to many times the one-ramp area, dead-zone neighbourhoods) is checked with exact Fractions: end points, raster, area "
-            "to 1e-8, limits, and a brute-force search of ALL shorter two-ramp gradients; the extracted model is compared on the "
-            "returned duration, validity class, selection cost, and on `_find_solution` (captured closure) for the probed and "
-            "random durations.",
+    'text': "Theorems (Coq, over Q/Z, for ALL (grad_start, grad_end, area) and all systems, on a Gallina model that follows the "
+            "repaired make_extended_trapezoid_area.py statement by statement incl. the rescan after the binary search and the "
+            "checks of make_extended_trapezoid it runs into): whenever the model returns a gradient its first/last amplitudes are "
+            "grad_start/grad_end and the times start at 0, all corner times are integer multiples of the raster and strictly "
+            "increasing, the enclosed area EQUALS the requested area (the analytic plateau amplitude solves the area equation), "
+            "every amplitude/slope is within the system limits with the code's slack and the plateau within 99% (+1e-8); "
+            "`find_solution d = None` implies that NO two-ramp gradient of duration d with raster corner times satisfies the "
+            "area equation within the limits the code enforces; UNCONDITIONALLY (both search phases, end points within 99% of "
+            "max_grad) the returned duration is the least duration >= min_duration for which _find_solution succeeds (proved via "
+            "the area bound |area| <= d*raster*(max_grad+1e-8) behind `shortest_conceivable`), hence no two-ramp gradient within "
+            "99% of the limits (nor within the code's +1e-8 limits from the lower search bound upwards) has fewer raster steps; "
+            "the algorithm BEFORE repair 7df2246 (model function eta_old) is refuted by a vm_compute witness (18 steps returned, "
+            "8+8 exists). Safety factors (0.99), tolerances (1e-8), eps and the shape of every transcribed expression are re-read "
+            "from the source on every run. On the implementation every generated case (random systems, rasters 2.5/4/5/6.4/10/"
+            "12.5/20 us, both signs, limit / equal / opposite / zero ends, areas from 0 to many times the one-ramp area, dead-zone "
+            "neighbourhoods, a directed family of inputs on which doubling+bisection over the two-ramp feasibility predicate is "
+            "fooled, one-raster-step ramps) is checked with exact Fractions: end points, raster, area to 1e-8, limits, and a "
+            "brute-force search of ALL shorter two-ramp gradients; the extracted model is compared on the returned duration, "
+            "validity class, selection cost, and on `_find_solution` (captured closure) for the probed and random durations.",
     'note': "Trusted: Coq kernel; translator patterns for make_extended_trapezoid_area.py / make_extended_trapezoid.py; extraction "
             "(ExtrOcamlBasic) + driver; binary64/NumPy arithmetic is outside the model (decisions that differ only because a value "
             "sits within 1e-9 of a threshold or a rounding tie are counted as benign divergences when the implementation's own "
-            "output satisfies the oracle). Minimality in the binary-search region is a theorem only under the stated monotonicity "
-            "hypothesis; the brute-force oracle checks it unconditionally on every generated case. Termination of the doubling "
-            "loop is not proved (explicit fuel, OutOfFuel excluded by the theorems).",
-    'technique': 'Rocq/Coq proof over a Gallina model (field/lra for the area equation, induction over the searches) + '
-                 'extraction-based correspondence + exhaustive exact-rational minimality oracle',
+            "output satisfies the oracle and the divergence is explained by a per-duration difference). Termination of the "
+            "doubling loop is not proved (explicit fuel; OutOfFuel is excluded by the form `eta = OK o -> ...` of the theorems). "
+            "The minimality theorem needs |grad_start|, |grad_end| <= 0.99 max_grad + 1e-8 (the property's domain) for the "
+            "area bound of the rescan.",
+    'technique': 'Rocq/Coq proof over a Gallina model (field/lra for the area equation and the area bound, induction over the '
+                 'searches) + extraction-based correspondence + exhaustive exact-rational minimality oracle + directed generation',
 }
 BUDGET = {'quick': 75, 'thorough': 1500}
 MISMATCH_BUDGET = 0.0
 ESCALATE_BUDGET = 150     # s, thorough-size correspondence after an edit of the transcribed source
 SEARCH_BUDGET = 150
 RULE = ('systems: max_grad = 100*k Hz/m in [1e5, 3e6], max_slew chosen so that ramp-to-limit takes 2.5..60 rasters, raster in '
-        '{4,5,10,20} us; ends drawn from {0, +-99% limit, random, equal, opposite, tiny}; areas from {0, tiny, fraction of the '
-        'one-ramp area, area of the direct ramp, area of a rastered max-slew triangle/trapezoid +- small relative offsets (dead-zone '
-        'neighbourhood), up to 25x (quick) / 150x (thorough) the one-ramp area}, both signs; all numbers are short decimals handed '
-        'to the implementation as the nearest double and to the model exactly. A boundary stream (one end between 99% and 100.5% of '
-        'max_grad) is correspondence-only. Oracle = exact Fractions on the returned event. distinct = distinct argument tuples; '
-        'non-trivial = returned duration beyond the lower search bound (a real search happened)')
+        '{2.5,4,5,6.4,10,12.5,20} us; ends drawn from {0, +-99% limit, random, equal, opposite, tiny}; areas from {0, tiny, fraction '
+        'of the one-ramp area, area of the direct ramp, area of a rastered max-slew triangle/trapezoid +- small relative offsets '
+        '(dead-zone neighbourhood), up to 7x (quick) / 150x (thorough) the one-ramp area}, both signs; families: `cross` (ends of '
+        'equal sign near the limit, waveform crossing zero, optimum above the linear range, slope within 1e-3 of the limit), '
+        '`fooled` (directed search with a binary64 two-ramp feasibility table for areas on which exhaustive-then-doubling+bisection '
+        'misses the least feasible duration), `onestep` (long ramp near the slew limit + one-raster-step ramp), thorough: '
+        'systematic scan of the cross family over every duration between the end of the linear range and five times it. All numbers '
+        'are short decimals handed to the implementation as the nearest double and to the model exactly. A boundary stream (one end '
+        'between 99% and 100.5% of max_grad) is correspondence-only. Oracle = exact Fractions on the returned event. distinct = '
+        'distinct argument tuples; non-trivial = returned duration beyond the lower search bound (a real search happened)')
 TRUSTED = ['binary64 arithmetic of NumPy/Python (products, ceil, round, comparisons with eps) is outside the model: sampled by '
            'correspondence; threshold/tie cases are classified as benign only if the implementation output passes the oracle']
 ASSUMPTIONS = ['generated cases keep every ceil() argument of the ramp-time computation at least 1e-9 away from an integer '
                '(or exactly 0), so the rastered ramp counts agree between binary64 and exact arithmetic',
-               'theorem eta_minimal_partial assumes Monotone_feasible_from (lin_max a): once a duration beyond the linear-search '
-               'range has a solution every longer one has (the assumption behind the binary search in the code)']
+               'theorem eta_minimal assumes |grad_start|, |grad_end| <= 0.99 max_grad + 1e-8 (the domain of the property) and '
+               'max_slew > 0; termination of the doubling loop is not proved (fuel)']
 
 FUEL_D, FUEL_B = 12, 200      # doubling fuel 12: up to 4096 x the ramp-to-zero duration (the generator stays far below)
 MAX_FIND_D = 6000            # longest duration handed to the model's find_solution
@@ -86,8 +94,13 @@ def sig_round(x, digits):
     return Fr(round(x / q)) * q
 
 
+# gradient rasters: whole microseconds and rasters that are NOT a whole number of microseconds (6.4, 2.5, 12.5 us)
+RASTERS = [Fr(4, 10 ** 6), Fr(5, 10 ** 6), Fr(10, 10 ** 6), Fr(20, 10 ** 6), Fr(10, 10 ** 6),
+           Fr(64, 10 ** 7), Fr(25, 10 ** 7), Fr(125, 10 ** 7)]
+
+
 def make_system(rng):
-    R = rng.choice([Fr(4, 10 ** 6), Fr(5, 10 ** 6), Fr(10, 10 ** 6), Fr(20, 10 ** 6)])
+    R = rng.choice(RASTERS)
     MG = 100 * rng.randint(1000, 30000)
     nr = rng.choice([rng.uniform(2.5, 12), rng.uniform(5, 30), rng.uniform(20, 60)])
     MS = 100 * max(1, round(float(Fr(99, 100) * MG / (Fr(nr) * R * Fr(99, 100))) / 100))
@@ -142,7 +155,7 @@ def gen_case(rng, tier, boundary=False):
         if not ceil_args_safe(MG, MS, R, gs, ge):
             continue
         a1 = mg * mg / (2 * ms)                         # area reachable by one ramp 0 -> limit
-        kind = rng.choice(['zero', 'tiny', 'frac', 'direct', 'shape', 'shape', 'shape', 'multi', 'multi', 'multi'])
+        kind = rng.choice(['zero', 'tiny', 'frac', 'frac', 'direct', 'shape', 'shape', 'shape', 'multi', 'multi'])
         sgn = rng.choice([-1, 1])
         if kind == 'zero':
             A = Fr(0)
@@ -166,8 +179,8 @@ def gen_case(rng, tier, boundary=False):
             A = ((gs + gm) / 2 * nu + gm * nf + (gm + ge) / 2 * ndn) * R
             A = A * (1 + Fr(rng.choice([0, 1e-7, -1e-7, 1e-5, -1e-5, 1e-3, -1e-3, 1e-2, -1e-2, 0.05, -0.05])))
         else:
-            top = 150 if big else 25
-            A = sgn * a1 * Fr(rng.choice([rng.uniform(1, 5), rng.uniform(2, 12), rng.uniform(5, top)]))
+            top = 150 if big else 7
+            A = sgn * a1 * Fr(rng.choice([rng.uniform(1, 4), rng.uniform(2, 12 if big else 6), rng.uniform(4, top)]))
         A = sig_round(A, 6)
         case = {'kind': ('boundary-' if boundary else '') + kind, 'rel': rel, 'MG': str(MG), 'MS': str(MS), 'R': dstr(R),
                 'gs': dstr(gs), 'ge': dstr(ge), 'A': dstr(A)}
@@ -175,7 +188,213 @@ def gen_case(rng, tier, boundary=False):
     raise RuntimeError('generator starved')
 
 
-def corpus():
+def _finish_case(kind, rel, MG, MS, R, gs, ge, A):
+    return {'kind': kind, 'rel': rel, 'MG': str(MG), 'MS': str(MS), 'R': dstr(R), 'gs': dstr(gs), 'ge': dstr(ge),
+            'A': dstr(sig_round(A, 7))}
+
+
+def cross_case(MG, MS, R, s, f, lam, which, d0, delta, sigma, offset):
+    """End points of equal sign near the limit (gs = s f mg, the other end lam times that), and the area of the
+    two-ramp gradient of d0 raster steps that leaves the end points towards zero and beyond with slope sigma * 99% max_slew
+    (split d0//2 + delta): the optimum lies above the ramp-to-zero duration that bounds the linear search, in the region
+    where odd/even durations alternate between feasible and infeasible (dead spaces of the binary search)."""
+    mg = Fr(99, 100) * MG
+    ms = Fr(99, 100) * MS
+    g = Fr(round(s * f * float(mg)))
+    g2 = Fr(round(float(g) * lam))
+    gs, ge = (g, g2) if which == 0 else (g2, g)
+    nu = max(1, min(d0 - 1, d0 // 2 + delta))
+    nd = d0 - nu
+    c1 = gs - s * Fr(sigma) * ms * R * nu
+    c2 = ge - s * Fr(sigma) * ms * R * nd
+    gm = max(c1, c2) if s > 0 else min(c1, c2)
+    gm = max(-mg, min(mg, gm))
+    A = ((gs + gm) / 2 * nu + (gm + ge) / 2 * nd) * R * (1 + Fr(offset))
+    return gs, ge, A
+
+
+def doubling_binary_search(lin, feasible):
+    """generic model of 'double the upper bound until feasible, then bisect (lower, upper]' started at the end `lin` of an
+    exhaustive range; returns the duration it would report for the feasibility predicate"""
+    hi = lin
+    for _ in range(20):
+        hi *= 2
+        if feasible(hi):
+            break
+    lo = hi // 2
+    while lo != hi - 1:
+        t = (hi + lo) // 2
+        if feasible(t):
+            hi = t
+        else:
+            lo = t
+    return hi
+
+
+def fooled_optima(lin, top):
+    """even optimum durations d0 in (lin, top] for which a doubling + bisection search is fooled when the feasible set is
+    {d >= d0} minus the single gap d0 + 1 (the odd/even alternation right above the optimum)"""
+    out = []
+    for d0 in range(lin + 1, top + 1):
+        if d0 % 2 == 0 and doubling_binary_search(lin, lambda d: d >= d0 and d != d0 + 1) != d0:
+            out.append(d0)
+    return out
+
+
+def gen_cross(rng, tier, force_mode=None):
+    for _ in range(400):
+        MG, MS, R = make_system(rng)
+        mg, ms = Fr(99, 100) * MG, Fr(99, 100) * MS
+        if float(mg / (ms * R)) > 9 and rng.random() < 0.75:
+            continue        # the gaps between feasible durations are widest when the ramp-to-limit time is a few rasters
+        s = rng.choice([-1, 1])
+        f = rng.choice([0.99, rng.uniform(0.3, 0.99), rng.uniform(0.8, 0.99)])
+        lam = rng.choice([1.0, 1.0, 1.0, rng.uniform(0.4, 1.0), rng.uniform(0.9, 1.0)])
+        lin = max(2, math.ceil(f * float(mg) / float(ms * R)))
+        if lin > 40:
+            continue
+        mode = force_mode or rng.choice(['any', 'near', 'probe', 'probe'])
+        if mode == 'any':
+            d0 = rng.randint(lin + 1, 5 * lin + 4)
+        elif mode == 'near':
+            d0 = rng.randint(lin + 1, 3 * lin + 1)
+        else:
+            # an optimum right below a gap that lies on the path of a doubling + bisection search
+            cand = fooled_optima(lin, 4 * lin + 2)
+            if not cand:
+                continue
+            d0 = rng.choice(cand)
+            lam = 1.0
+            if f < 0.75:
+                f = rng.uniform(0.75, 0.99)
+                lin2 = max(2, math.ceil(f * float(mg) / float(ms * R)))
+                if lin2 != lin:
+                    continue
+        # slope so close to the limit that one more raster step (larger excursion needed, same split) is infeasible
+        sigma = rng.choice([0.97, 0.99, 1 - 0.5 / (d0 + 1), 1 - 0.2 / (d0 + 1), 1 - 0.05 / (d0 + 1), 1 - 0.01 / (d0 + 1)])
+        if mode == 'probe':
+            sigma = rng.choice([1 - 0.2 / (d0 + 1), 1 - 0.05 / (d0 + 1), 1 - 0.01 / (d0 + 1)])
+        gs, ge, A = cross_case(MG, MS, R, s, f, lam, rng.randint(0, 1), d0,
+                               0 if mode == 'probe' else rng.choice([0, 0, 0, 1, -1]), sigma,
+                               rng.choice([0, 0, 1e-6, -1e-6]) if mode == 'probe' else
+                               rng.choice([0, 0, 1e-6, -1e-6, -1e-4, 1e-4, -1e-3, -1e-2]))
+        if not ceil_args_safe(MG, MS, R, gs, ge):
+            continue
+        return _finish_case('cross', 'equal' if gs == ge else 'same-sign', MG, MS, R, gs, ge, A)
+    raise RuntimeError('generator starved')
+
+
+def scan_cross(rng, n_systems):
+    """systematic scan of the cross family (thorough tier): equal ends, every total duration between the end of the
+    linear search and five times it, both signs, several end-point levels and slopes"""
+    out = []
+    for _ in range(n_systems):
+        for _try in range(100):
+            MG, MS, R = make_system(rng)
+            mg, ms = Fr(99, 100) * MG, Fr(99, 100) * MS
+            if 2.5 <= float(mg / (ms * R)) <= 9:
+                break
+        for f in (0.35, 0.5, 0.65, 0.8, 0.9, 0.947, 0.99):
+            lin = max(2, math.ceil(f * float(mg) / float(ms * R)))
+            for s in (-1, 1):
+                for d0 in range(lin + 1, 5 * lin + 3):
+                    for sigma in (0.97, 0.9995):
+                        gs, ge, A = cross_case(MG, MS, R, s, f, 1.0, 0, d0, 0, sigma, 0)
+                        if ceil_args_safe(MG, MS, R, gs, ge):
+                            out.append(_finish_case('scan-cross', 'equal', MG, MS, R, gs, ge, A))
+    return out
+
+
+def two_ramp_feasible_table(mg, ms, R, gs, ge, A, dmax):
+    """binary64 predictor used ONLY to steer the generator (never to judge): table t[d] = 'there is a split ru + rd = d
+    whose corner amplitude solves the area equation within the 99% limits', d = 0 .. dmax"""
+    import numpy as np
+    d = np.arange(dmax + 1, dtype=float)[:, None]
+    ru = np.arange(dmax + 1, dtype=float)[None, :]
+    rd = d - ru
+    with np.errstate(divide='ignore', invalid='ignore'):
+        ga = (2 * A / R - ru * gs - rd * ge) / d
+        ok = (ru >= 1) & (rd >= 1) & (np.abs(ga) <= mg) & (np.abs(ga - gs) <= ms * R * ru) & (np.abs(ga - ge) <= ms * R * rd)
+    return ok.any(axis=1)
+
+
+def gen_fooled(rng, tier):
+    """directed search for inputs on which 'exhaustive search up to the ramp-to-zero duration, then doubling + bisection'
+    over the two-ramp feasibility predicate does NOT land on the least feasible duration: dead spaces above the linear
+    range (end points near the limit, small/medium areas that fall between the ranges reachable by short durations)"""
+    for _ in range(60):
+        MG, MS, R = make_system(rng)
+        mg, ms = Fr(99, 100) * MG, Fr(99, 100) * MS
+        if float(mg / (ms * R)) > 12 and rng.random() < 0.8:
+            continue
+        s = rng.choice([-1, 1])
+        f = rng.choice([0.99, rng.uniform(0.5, 0.99), rng.uniform(0.85, 0.99)])
+        gs = Fr(round(s * f * float(mg)))
+        rel = rng.choice(['equal', 'equal', 'same-sign', 'free'])
+        if rel == 'equal':
+            ge = gs
+        elif rel == 'same-sign':
+            ge = Fr(round(float(gs) * rng.uniform(0.4, 1.0)))
+            if rng.random() < 0.5:
+                gs, ge = ge, gs
+        else:
+            ge = Fr(round(rng.uniform(-1, 1) * float(mg)))
+        if not ceil_args_safe(MG, MS, R, gs, ge):
+            continue
+        fmg, fms, fR, fgs, fge = float(mg), float(ms), float(R), float(gs), float(ge)
+        lin = max(2, math.ceil(max(abs(fgs), abs(fge)) / (fms * fR)), math.ceil(abs(fgs - fge) / (fms * fR)))
+        mn = max(2, math.ceil(abs(fgs - fge) / (fms * fR)))
+        scale = max(abs(fgs), abs(fge)) * lin * fR
+        found = None
+        dmax = 8 * lin + 4
+        for _a in range(40):
+            A = rng.uniform(-2.5, 2.5) * scale
+            if two_ramp_feasible_table(fmg, fms, fR, fgs, fge, A, lin)[mn:].any():
+                continue                      # already solved inside the exhaustive range
+            tab = two_ramp_feasible_table(fmg, fms, fR, fgs, fge, A, dmax)
+            dmin = next((d for d in range(mn, 8 * lin + 4) if tab[d]), None)
+            if dmin is None or dmin <= lin:
+                continue
+            if doubling_binary_search(lin, lambda d: d <= dmax and bool(tab[d]) or d > dmax) != dmin:
+                found = A
+                break
+        if found is None:
+            continue
+        return _finish_case('fooled', rel, MG, MS, R, gs, ge, Fr(found))
+    return gen_cross(rng, tier)
+
+
+def gen_onestep(rng, tier):
+    """a long ramp close to the slew limit followed (or preceded) by a ONE-raster-step ramp: the only feasible split of the
+    shortest duration has a single-step ramp at one end"""
+    for _ in range(200):
+        MG, MS, R = make_system(rng)
+        mg, ms = Fr(99, 100) * MG, Fr(99, 100) * MS
+        step = ms * R
+        n_long = rng.randint(2, max(3, min(60, int(2 * float(mg / step)) - 1)))
+        sigma = Fr(rng.choice([0.95, 0.98, 0.995, 0.999]))
+        sdir = rng.choice([-1, 1])
+        # long ramp from g0 to gm, then one step from gm to g1
+        span = sigma * step * n_long
+        if span >= 2 * mg:
+            continue
+        lo = -mg if sdir > 0 else -mg + span
+        hi = mg - span if sdir > 0 else mg
+        g0 = Fr(round(rng.uniform(float(lo), float(hi))))
+        gm = g0 + sdir * span
+        g1 = gm + rng.choice([-1, 1]) * Fr(rng.uniform(0.05, 0.98)) * step
+        g1 = Fr(round(max(-mg, min(mg, g1))))
+        if abs(gm) > mg or g1 == gm:
+            continue
+        A = ((g0 + gm) / 2 * n_long + (gm + g1) / 2 * 1) * R * (1 + Fr(rng.choice([0, 0, -1e-6, 1e-6, -1e-4])))
+        gs, ge = (g0, g1) if rng.random() < 0.5 else (g1, g0)       # single step last / first
+        if not ceil_args_safe(MG, MS, R, gs, ge):
+            continue
+        return _finish_case('onestep', 'last' if gs == g0 else 'first', MG, MS, R, gs, ge, A)
+    raise RuntimeError('generator starved')
+
+
+def corpus(tier='quick'):
     """the fixed zoo of tests/test_make_extended_trapezoid_area.py on a default-like system (limits rounded to
     multiples of 100 so that 99% of them is exactly representable) and on the true default system (non-limit entries)"""
     cs = []
@@ -187,10 +406,30 @@ def corpus():
            (-lim, 0, 1), (-lim, 0, -1), (0, 100000, 1), (0, 100000, -1), (0, -100000, 1), (0, -100000, -1),
            (0, 90000, Fr('0.45')), (0, 90000, Fr('-0.45')), (0, -90000, Fr('0.45')), (0, -90000, Fr('-0.45')),
            (lim, lim, 1), (lim, lim, -1), (lim, -lim, 0), (0, 0, 0)]
+    if tier == 'quick':
+        # the 600-raster cases cost seconds in the exact model (the rescan is quadratic): one of them stays in the quick tier
+        zoo = [z for z in zoo if abs(Fr(z[2])) < 10000 or z == (0, 0, 10000)]
     for gs, ge, A in zoo:
         cs.append({'kind': 'corpus', 'rel': 'zoo', 'MG': str(MG), 'MS': str(MS), 'R': '1/100000',
                    'gs': dstr(Fr(gs)), 'ge': dstr(Fr(ge)), 'A': dstr(Fr(A))})
-    for gs, ge, A in zoo[:14] + zoo[22:30]:
+    # dead space ABOVE the linear range (found by an independent author on the unrepaired source: 18 steps returned,
+    # the ramp pair 8 + 8 exists); Opts(max_grad=10 mT/m, max_slew=200 T/m/s); repaired in /repo by 7df2246
+    for gs, A in (('-3991189/10', '-497/50'), ('3991189/10', '497/50')):
+        cs.append({'kind': 'corpus', 'rel': 'dead-space-above-linear-range', 'MG': '425760', 'MS': '8515200000',
+                   'R': '1/100000', 'gs': gs, 'ge': gs, 'A': A})
+    # one-step second ramp after a long ramp near the slew limit (shortest pair 21 + 1), default system
+    for gs, ge, A in (('-700000', '845000', '3833/200'), ('700000', '-845000', '-3833/200'), ('845000', '-700000', '3833/200')):
+        cs.append({'kind': 'corpus', 'rel': 'one-step-ramp', 'MG': '1703040', 'MS': '7237920000', 'R': '1/100000',
+                   'gs': gs, 'ge': ge, 'A': A})
+    # raster that is not a whole number of microseconds
+    for gs, ge, A in (('0', '0', '13/10'), ('-500000', '850000', '-4/5'), ('-380000', '-380000', '-6')):
+        cs.append({'kind': 'corpus', 'rel': 'raster-6.4us', 'MG': '1277300', 'MS': '4257600000', 'R': '64/10000000',
+                   'gs': gs, 'ge': ge, 'A': A})
+    # both ends negative with different magnitudes, small negative area
+    for gs, ge, A in (('-842985', '-1601671', '-180'), ('-1601671', '-842985', '-180'), ('-842985', '-1601671', '-60')):
+        cs.append({'kind': 'corpus', 'rel': 'both-negative', 'MG': '1703000', 'MS': '7237920000', 'R': '1/100000',
+                   'gs': gs, 'ge': ge, 'A': A})
+    for gs, ge, A in [z for z in zoo if abs(Fr(z[2])) <= 100 and abs(Fr(z[0])) < lim and abs(Fr(z[1])) < lim]:
         cs.append({'kind': 'corpus', 'rel': 'zoo-default', 'MG': '1703040', 'MS': '7237920000', 'R': '1/100000',
                    'gs': dstr(Fr(gs)), 'ge': dstr(Fr(ge)), 'A': dstr(Fr(A))})
     return cs
@@ -528,7 +767,7 @@ def process(ctx, c, rng, n_find):
     ctx.count('ends.' + c['rel'])
     ctx.count('domain.' + ('in' if dom else 'out'))
     ctx.count('class.' + res['cls'])
-    ctx.count('raster_us.%d' % round(R * 10 ** 6))
+    ctx.count('raster_us.%g' % float(R * 10 ** 6))
     nontrivial = False
     if res['cls'] == 'OK':
         Di = D if D is not None else round(Fr(res['tt'][-1]) / R)
@@ -553,6 +792,12 @@ def process(ctx, c, rng, n_find):
         return res, ok
     mres = parse_run(ctx.model([model_run_line(c)])[0])
     same = compare_run(ctx, c, res, mres, ok, D)
+    if mres.get('cls') == 'OK' and mres['D'] > mres['lin_max'] and \
+            (ctx.tier == 'thorough' or c['kind'] in ('cross', 'scan-cross', 'fooled', 'corpus', 'shape', 'onestep')):
+        # evidence that the generator reaches dead spaces ABOVE the linear range: the search without the rescan
+        # (model function eta_old = the source before repair 7df2246) would have returned a longer gradient
+        old = parse_run(ctx.model(['eta.old %s %d %d' % (args_tok(c), FUEL_D, FUEL_B)])[0])
+        ctx.count('rescan.' + ('shortened_result' if old.get('cls') == 'OK' and old['D'] > mres['D'] else 'no_effect'))
     if res.get('closure') is not None and n_find > 0:
         ds = sorted({d for d, _ in res['probes']})
         if len(ds) > 3:
@@ -574,14 +819,28 @@ def run(ctx):
     rng = ctx.rng('cases')
     brng = ctx.rng('boundary')
     frng = ctx.rng('find')
-    n_cases = {'quick': 330, 'thorough': 12000}[ctx.tier]
-    n_bound = {'quick': 30, 'thorough': 800}[ctx.tier]
-    cases = corpus() + [gen_case(rng, ctx.tier) for _ in range(n_cases)]
-    cases += [gen_case(brng, ctx.tier, boundary=True) for _ in range(n_bound)]
-    for i, c in enumerate(cases):
+    xrng = ctx.rng('cross')
+    orng = ctx.rng('onestep')
+    n_cases = {'quick': 200, 'thorough': 7000}[ctx.tier]
+    n_cross = {'quick': 30, 'thorough': 1500}[ctx.tier]
+    n_one = {'quick': 20, 'thorough': 800}[ctx.tier]
+    n_bound = {'quick': 15, 'thorough': 500}[ctx.tier]
+    zrng = ctx.rng('fooled')
+    n_fooled = {'quick': 20, 'thorough': 1500}[ctx.tier]
+    # cases are generated lazily, in a shuffled order of families (neither the time budget nor the cost of the directed
+    # generator may starve a family)
+    plan = [lambda: gen_case(rng, ctx.tier)] * n_cases + [lambda: gen_cross(xrng, ctx.tier)] * n_cross + \
+        [lambda: gen_onestep(orng, ctx.tier)] * n_one + [lambda: gen_fooled(zrng, ctx.tier)] * n_fooled + \
+        [lambda: gen_case(brng, ctx.tier, boundary=True)] * n_bound
+    if ctx.tier == 'thorough':
+        plan += [(lambda c=c: c) for c in scan_cross(ctx.rng('scan'), 4)]
+    ctx.rng('order').shuffle(plan)
+    plan = [(lambda c=c: c) for c in corpus(ctx.tier)] + plan
+    for i, mk in enumerate(plan):
         if ctx.out_of_time():
             ctx.notes.append('time budget reached after %d cases' % i)
             break
+        c = mk()
         res, ok = process(ctx, c, frng, n_find=2)
         if i % 97 == 40 and res['cls'] == 'OK':
             ctx.sample({'case': c, 'tt': res['tt'], 'waveform': res['wave'], 'probed_durations': [d for d, _ in res['probes']][:30]})
